@@ -7,7 +7,9 @@ runs for the harness's `scan` cases) by induction, for every source text:
 
 * `Tiling p cs toks`: starting at char offset `p` with `cs` left to read, the list `toks` of
   `(offset, token)` pairs accounts for all of `cs` — white space, then the text of the first token at
-  exactly its offset, and so on, ending in white space only; an automatic semicolon has no text and sits
+  exactly its offset — the very token `scan_token` returns on the text that starts there, so every per-token
+  theorem (longest match, keyword / identifier runs, `Props/C09d`, `Props/C10c`) applies to every token of the
+  list — and so on, ending in white space only; an automatic semicolon has no text and sits
   at the position the scanner has reached;
 * `scanTokens_tiles`: when the loop ends without an error, its tokens tile the whole source from offset 0;
 * `scanTokens_tiles_prefix`: when it ends in an error, the tokens returned before it tile the source up
@@ -28,6 +30,7 @@ inductive Tiling : Nat → List Char → List (Nat × Token) → Prop
       Tiling p cs ((p, .operator .SemiColon) :: toks)
   | tok (p : Nat) (ws : List Char) (t : Token) (cs : List Char) (toks : List (Nat × Token))
       (hw : ∀ c ∈ ws, isWhite c = true) (hne : t.text ≠ [])
+      (hs : scanToken (t.text ++ cs) = .ok (t, t.text.length))
       (h : Tiling (p + ws.length + t.text.length) cs toks) :
       Tiling p (ws ++ t.text ++ cs) ((p + ws.length, t) :: toks)
 
@@ -40,6 +43,7 @@ inductive TilingUpTo (q : Nat) : Nat → List Char → List (Nat × Token) → P
       TilingUpTo q p cs ((p, .operator .SemiColon) :: toks)
   | tok (p : Nat) (ws : List Char) (t : Token) (cs : List Char) (toks : List (Nat × Token))
       (hw : ∀ c ∈ ws, isWhite c = true) (hne : t.text ≠ [])
+      (hs : scanToken (t.text ++ cs) = .ok (t, t.text.length))
       (h : TilingUpTo q (p + ws.length + t.text.length) cs toks) :
       TilingUpTo q p (ws ++ t.text ++ cs) ((p + ws.length, t) :: toks)
 
@@ -194,9 +198,12 @@ theorem nextToken_none {s s' : Scanner} (h : s.nextToken = (.ok none, s')) :
     the scanner right after it -/
 theorem nextToken_some {s s' : Scanner} {p : Nat} {tok : Token}
     (h : s.nextToken = (.ok (some (p, tok)), s')) :
-    (tok = .operator .SemiColon ∧ p = s.pos ∧ s'.pos = s.pos ∧ s'.rest = s.rest ∧ s.semi = true ∧ s'.semi = false) ∨
+    (tok = .operator .SemiColon ∧ p = s.pos ∧ s'.pos = s.pos ∧ s'.rest = s.rest ∧ s.semi = true ∧ s'.semi = false ∧
+      s.lineEnded = true) ∨
     (∃ ws cs, s.rest = ws ++ tok.text ++ cs ∧ (∀ c ∈ ws, isWhite c = true) ∧ tok.text ≠ [] ∧
-      p = s.pos + ws.length ∧ s'.pos = s.pos + ws.length + tok.text.length ∧ s'.rest = cs) := by
+      p = s.pos + ws.length ∧ s'.pos = s.pos + ws.length + tok.text.length ∧ s'.rest = cs ∧
+      (s.semi && s.lineEnded) = false ∧ s'.semi = tryInsertSemicolon tok ∧
+      scanToken (tok.text ++ cs) = .ok (tok, tok.text.length)) := by
   have hsrc : s'.src = s.src := by have := nextToken_src s; rw [h] at this; exact this
   unfold Scanner.nextToken at h
   split at h
@@ -204,8 +211,9 @@ theorem nextToken_some {s s' : Scanner} {p : Nat} {tok : Token}
     simp only [Prod.mk.injEq, Except.ok.injEq, Option.some.injEq] at h
     obtain ⟨⟨rfl, rfl⟩, rfl⟩ := h
     simp only [Bool.and_eq_true] at hc
-    exact .inl ⟨rfl, rfl, rfl, rfl, hc.1, rfl⟩
-  · simp only at h
+    exact .inl ⟨rfl, rfl, rfl, rfl, hc.1, rfl, hc.2⟩
+  · rename_i hnc
+    simp only at h
     split at h
     · simp at h
     · split at h
@@ -230,7 +238,7 @@ theorem nextToken_some {s s' : Scanner} {p : Nat} {tok : Token}
           rw [List.append_assoc, hcs, List.take_append_drop]
         have hp' : s'.pos = s.pos + skipCount s.rest + tok'.text.length := by
           rw [← hs']; cases tok' <;> simp [Scanner.addTokenCrossLine, ht.2, hpos]
-        refine ⟨s.rest.take (skipCount s.rest), cs, hsplit, skipCount_white _, hne, ?_, ?_, ?_⟩
+        refine ⟨s.rest.take (skipCount s.rest), cs, hsplit, skipCount_white _, hne, ?_, ?_, ?_, by simpa using hnc, by rw [← hs'], by rw [hcs, ← hr, ← ht.2]; exact hs⟩
         · rw [hlen, ← hp, hpos]
         · rw [hlen]; exact hp'
         · have := rest_of s' s (skipCount s.rest + tok'.text.length) hsrc (by rw [hp']; omega)
@@ -288,12 +296,12 @@ theorem scanTokensAcc_tiles (fuel : Nat) (s : Scanner) (acc : List (Nat × Token
       refine ⟨(p, tok) :: l, by rw [hl]; simp, ?_, ?_⟩
       · intro he hf
         have ht := hfull he hf
-        rcases nextToken_some hn with ⟨rfl, rfl, hp', hr', _, _⟩ | ⟨ws, cs, hsplit, hw, hne, rfl, hp', hr'⟩
+        rcases nextToken_some hn with ⟨rfl, rfl, hp', hr', _, _, _⟩ | ⟨ws, cs, hsplit, hw, hne, rfl, hp', hr', _, _, hsc⟩
         · rw [hp', hr'] at ht; exact Tiling.auto _ _ _ ht
-        · rw [hp', hr'] at ht; rw [hsplit]; exact Tiling.tok _ _ _ _ _ hw hne ht
-      · rcases nextToken_some hn with ⟨rfl, rfl, hp', hr', _, _⟩ | ⟨ws, cs, hsplit, hw, hne, rfl, hp', hr'⟩
+        · rw [hp', hr'] at ht; rw [hsplit]; exact Tiling.tok _ _ _ _ _ hw hne hsc ht
+      · rcases nextToken_some hn with ⟨rfl, rfl, hp', hr', _, _, _⟩ | ⟨ws, cs, hsplit, hw, hne, rfl, hp', hr', _, _, hsc⟩
         · rw [hp', hr'] at hpre; exact TilingUpTo.auto _ _ _ hpre
-        · rw [hp', hr'] at hpre; rw [hsplit]; exact TilingUpTo.tok _ _ _ _ _ hw hne hpre
+        · rw [hp', hr'] at hpre; rw [hsplit]; exact TilingUpTo.tok _ _ _ _ _ hw hne hsc hpre
     · rename_i s' hn
       refine ⟨[], by simp, ?_, ?_⟩
       · intro _ _; exact Tiling.done _ _ (nextToken_none hn)
@@ -312,7 +320,7 @@ theorem mu_decreases {s s' : Scanner} {pt : Nat × Token} (h : s.nextToken = (.o
   have hsrc : s'.src = s.src := by have := nextToken_src s; rw [h] at this; exact this
   obtain ⟨p, tok⟩ := pt
   unfold mu
-  rcases nextToken_some h with ⟨_, _, hp', _, hs, hs'⟩ | ⟨ws, cs, hsplit, _, hne, _, hp', _⟩
+  rcases nextToken_some h with ⟨_, _, hp', _, hs, hs', _⟩ | ⟨ws, cs, hsplit, _, hne, _, hp', _, _, _, _⟩
   · rw [hsrc, hp', hs, hs']; simp
   · have hl := rest_length s
     rw [hsplit] at hl
@@ -379,7 +387,7 @@ theorem tiling_covers {p : Nat} {cs : List Char} {toks : List (Nat × Token)} (h
     intro i c hi hc
     obtain ⟨q, t, hm, h1, h2⟩ := ih i c hi hc
     exact ⟨q, t, List.mem_cons_of_mem _ hm, h1, h2⟩
-  | tok p ws t cs toks hw hne _ ih =>
+  | tok p ws t cs toks hw hne _ _ ih =>
     intro i c hi hc
     by_cases h1 : i < ws.length
     · rw [List.append_assoc, List.getElem?_append_left h1] at hi
@@ -403,7 +411,7 @@ theorem tiling_text_at {p : Nat} {cs : List Char} {toks : List (Nat × Token)} (
     rcases List.mem_cons.1 hm with he | hm
     · cases he; exact ⟨Nat.le_refl _, .inl rfl⟩
     · exact ih q t hm
-  | tok p ws t cs toks hw hne _ ih =>
+  | tok p ws t cs toks hw hne _ _ ih =>
     intro q t' hm
     rcases List.mem_cons.1 hm with he | hm
     · cases he
@@ -426,7 +434,7 @@ theorem tiling_ordered {p : Nat} {cs : List Char} {toks : List (Nat × Token)} (
   | done => exact List.Pairwise.nil
   | auto p cs toks ht ih =>
     exact List.Pairwise.cons (fun b hb => (tiling_text_at ht b.1 b.2 hb).1) ih
-  | tok p ws t cs toks hw hne ht ih =>
+  | tok p ws t cs toks hw hne _ ht ih =>
     exact List.Pairwise.cons (fun b hb => by have := (tiling_text_at ht b.1 b.2 hb).1; simp only; omega) ih
 
 /-! ### the statements are not vacuous -/
@@ -436,7 +444,7 @@ example : (scanTokens { src := #['1', ' ', '+', '\n'] }).toks =
     [(0, .literal .Integer ['1']), (2, .operator .Add)] := by decide +kernel
 example : (scanTokens { src := #['1', '\n', '\''] }).err.isSome = true := by decide +kernel
 example : Tiling 0 ['1', ' ', '+', '\n'] [(0, .literal .Integer ['1']), (2, .operator .Add)] :=
-  Tiling.tok 0 [] (.literal .Integer ['1']) _ _ (by simp) (by simp [Token.text])
-    (Tiling.tok 1 [' '] (.operator .Add) ['\n'] [] (by decide) (by decide) (Tiling.done _ _ (by decide)))
+  Tiling.tok 0 [] (.literal .Integer ['1']) _ _ (by simp) (by simp [Token.text]) (by decide +kernel)
+    (Tiling.tok 1 [' '] (.operator .Add) ['\n'] [] (by decide) (by decide) (by decide +kernel) (Tiling.done _ _ (by decide)))
 
 end Gosyn.Props.C07b
